@@ -165,12 +165,16 @@ class AsmGen:
             m = re.match(r'^(\w+)\s*(.*)$', ins_)
             mn, rest = m.group(1), m.group(2)
             args = [a.strip() for a in rest.split(',')] if rest.strip() else []
-            if mn in ('jnc', 'jc'):
-                lab = re.match(r'^(\d+)f$', args[0])
+            if mn in ('jnc', 'jc', 'jae', 'jb', 'jnb', 'jz', 'je', 'jnz', 'jne', 'jmp'):
+                lab = re.match(r'^(\d+)[fb]$', args[0])
                 if not lab:
                     raise Unsupported('jump target ' + args[0])
-                cond = '!R.cf' if mn == 'jnc' else 'R.cf'
-                L.append('  simw_asm::sig(R.cf); if (%s) goto simw_L%s_%s;' % (cond, self.id, lab.group(1)))
+                cond = {'jnc': '!R.cf', 'jae': '!R.cf', 'jnb': '!R.cf', 'jc': 'R.cf', 'jb': 'R.cf', 'jz': 'R.zf', 'je': 'R.zf', 'jnz': '!R.zf', 'jne': '!R.zf', 'jmp': 'true'}[mn]
+                if mn == 'jmp':
+                    L.append('  goto simw_L%s_%s;' % (self.id, lab.group(1)))
+                else:
+                    flag = 'R.zf' if 'z' in mn or mn in ('je', 'jne') else 'R.cf'
+                    L.append('  simw_asm::sig(%s); if (%s) goto simw_L%s_%s;' % (flag, cond, self.id, lab.group(1)))
                 continue
             if mn in ('mul', 'mulq'):
                 k, e, is32 = self.operand(args[0], opmap)
@@ -179,6 +183,12 @@ class AsmGen:
             if mn in ('divq', 'div'):
                 k, e, is32 = self.operand(args[0], opmap)
                 L.append('  simw_asm::div(R, %s);' % e)
+                continue
+            if mn in ('neg', 'not', 'inc', 'dec') and len(args) == 1:
+                dk, de, d32 = self.operand(args[0], opmap)
+                if dk != 'reg':
+                    raise Unsupported('non-register operand in ' + ins_)
+                L.append('  simw_asm::%s_(R, %s);' % (mn, de))
                 continue
             if len(args) != 2:
                 raise Unsupported('instruction ' + ins_)
@@ -192,13 +202,33 @@ class AsmGen:
                 else:
                     L.append('  %s = %s;' % (de, se))
             elif mn == 'xor':
-                L.append('  %s = (%s ^ %s) & simw_asm::LM; R.cf = false;' % (de, de, se))
+                L.append('  %s = (%s ^ %s) & simw_asm::LM; R.cf = false; R.zf = (%s == 0);' % (de, de, se, de))
             elif mn == 'add':
                 L.append('  simw_asm::add(R, %s, %s, false);' % (de, se))
             elif mn == 'adc':
                 L.append('  simw_asm::add(R, %s, %s, true);' % (de, se))
             elif mn == 'sub':
                 L.append('  simw_asm::sub(R, %s, %s);' % (de, se))
+            elif mn == 'sbb':
+                L.append('  simw_asm::sbb(R, %s, %s);' % (de, se))
+            elif mn == 'cmp':
+                L.append('  simw_asm::cmp(R, %s, %s);' % (de, se))
+            elif mn == 'test':
+                L.append('  simw_asm::test(R, %s, %s);' % (de, se))
+            elif mn in ('and', 'or'):
+                L.append('  simw_asm::logic(R, %s, %s, %d);' % (de, se, 0 if mn == 'and' else 1))
+            elif mn in ('shl', 'shr', 'sal'):
+                if sk != 'imm':
+                    raise Unsupported('shift count ' + ins_)
+                L.append('  simw_asm::shift(R, %s, %s, %d);' % (de, se, 0 if mn in ('shl', 'sal') else 1))
+            elif mn in ('cmovz', 'cmove'):
+                L.append('  simw_asm::sig(R.zf); if (R.zf) %s = %s;' % (de, se))
+            elif mn in ('cmovnz', 'cmovne'):
+                L.append('  simw_asm::sig(R.zf); if (!R.zf) %s = %s;' % (de, se))
+            elif mn in ('cmovb',):
+                L.append('  simw_asm::sig(R.cf); if (R.cf) %s = %s;' % (de, se))
+            elif mn in ('cmovae', 'cmovnb'):
+                L.append('  simw_asm::sig(R.cf); if (!R.cf) %s = %s;' % (de, se))
             elif mn == 'cmovc':
                 L.append('  simw_asm::sig(R.cf); if (R.cf) %s = %s;' % (de, se))
             elif mn == 'cmovnc':
